@@ -180,6 +180,10 @@ def model_load_request(elab, lines, url="file:///zcvroot/main.conf", overrides=(
     return [Atom("load"), elab, list(pkgs), list(resources), list(resolve), list(env), url, list(lines), ovs]
 
 
+def spec_load_request(elab, lines, url="file:///zcvroot/main.conf", resources=(), resolve=(), env=()):
+    return [Atom("loadspec"), elab, list(resources), list(resolve), list(env), url, list(lines)]
+
+
 def compare_load(model, outcome, cfg, handler, hnames, schema=None):
     """returns None when model and implementation agree, else a short reason"""
     if model[0] == "bad":
